@@ -3,7 +3,8 @@
    configuration, every behaviour of the modelled third-party code (RSA, serde), every
    adapter result and latency, every inbox of client frames and every timing. *)
 From Passage Require Import Lib.Bytes Codec.Desc Gen.PacketsGen Conn.Types Conn.Prog Conn.Sem1 Conn.Sem2
-  Conn.Monitor Conn.MonitorProofs Conn.Monitor2Proofs Conn.Order Conn.OrderProofs Conn.Checks Conn.Walk_C10 Crypto.Cookie Conn.CookieProofs.
+  Conn.Monitor Conn.MonitorProofs Conn.Monitor2Proofs Conn.Order Conn.OrderProofs Conn.Checks Conn.Walk_C10 Crypto.Cookie Conn.CookieProofs
+  Crypto.CookieJson Crypto.CookieJsonProofs.
 
 Theorem C10_walk : forall o cfg, safe (step_with (chk_c10 o cfg)) m_init (listen o cfg).
 Proof. exact listen_c10_safe. Qed.
@@ -42,6 +43,40 @@ Theorem C10_roundtrip : forall o cfg s c h proto host port now2,
   cookie_accepted o cfg h = Some c.
 Proof. exact cookie_roundtrip. Qed.
 
+(* ---- serde_json as Gallina functions (Crypto/CookieJson.v, tied to the real serde_json by the
+   cookie binary's JS / JP families): the parser reads back what the writer wrote, for every
+   record whose strings are UTF-8, whose numbers are in the range of their Rust types, whose
+   client address is a canonical IP text with a u16 port and whose `extra` is sorted by key *)
+Theorem C10_parse_ser_auth : forall c, wf_auth c = true -> parse_auth (ser_auth c) = Some (JOk c).
+Proof. exact parse_ser_auth. Qed.
+
+Theorem C10_parse_ser_session : forall c, wf_session c = true ->
+  parse_session (ser_session c) = Some (JOk (Some c)).
+Proof. exact parse_ser_session. Qed.
+
+Theorem C10_ser_auth_inj : forall c1 c2, wf_auth c1 = true -> wf_auth c2 = true ->
+  ser_auth c1 = ser_auth c2 -> c1 = c2.
+Proof. exact ser_auth_inj. Qed.
+
+(* C10_roundtrip with serde_json instantiated (on inputs the parser model does not decide, by
+   ANY fallback verdict): no hypothesis about serde is left *)
+Theorem C10_roundtrip_json : forall rsa fb_auth fb_sess cfg s c h proto host port now2,
+  wf_auth c = true ->
+  cf_secret cfg = Some s ->
+  hs_fields h = Some (proto, host, port, 2) ->
+  auth_payload h = Some (sign (ser_auth c) s) ->
+  newest_now h = Some now2 ->
+  sa_ip (ac_addr c) = sa_ip (cf_client cfg) ->
+  now2 <= Z.min (ac_ts c + cf_expiry cfg) (2 ^ 64 - 1) ->
+  cookie_accepted (json_oracles rsa fb_auth fb_sess) cfg h = Some c.
+Proof. exact roundtrip_json. Qed.
+
+(* non-vacuity: a concrete well-formed cookie (IPv6 client, a name with a quote, a backslash,
+   control characters and a non-ASCII letter, two properties, two extra entries) *)
+Example C10_roundtrip_json_witness :
+  wf_auth ex_cookie = true /\ parse_auth (ser_auth ex_cookie) = Some (JOk ex_cookie).
+Proof. exact parse_ser_auth_ex. Qed.
+
 (* ---- the same at byte level (M2): for every timed byte stream the client can send, however
    it is segmented and wherever keep-alive ticks and adapter completions fall - including the
    schedules on which the handler drops a partly read frame (known classes K1 / K4 of C08). *)
@@ -62,6 +97,10 @@ Print Assumptions C10_walk.
 Print Assumptions C10_verify_sign.
 Print Assumptions C10_verify_spec.
 Print Assumptions C10_roundtrip.
+Print Assumptions C10_parse_ser_auth.
+Print Assumptions C10_parse_ser_session.
+Print Assumptions C10_ser_auth_inj.
+Print Assumptions C10_roundtrip_json.
 Print Assumptions C10_accepts.
 Print Assumptions C10_every_event_checked.
 Print Assumptions C10_accepts_bytes.
